@@ -309,3 +309,52 @@ def comp_next_fallthrough(F):
         r.violate("%s | early exhaustion" % fn["path"], F.loc(fn),
                   "ComponentSubIterator::next can return the module iterator's `false` directly: when the remaining functions of a non-final module are all skipped the component traversal ends instead of continuing with the next module")
     return r
+
+
+def skip_passthrough(F):
+    """R-SKIP-PASSTHROUGH: the skip configuration a caller hands to ModuleIterator::new / ComponentIterator::new reaches the
+    sub-iterator unfiltered (only cloned): the iterator does not decide which of the caller's entries 'can' match."""
+    r = RuleResult("R-SKIP-PASSTHROUGH",
+                   "the skip list/map given to the public iterator constructors is passed to the sub-iterator as is (clone/to_owned only): no filter, retain, truncation or re-keying on the way")
+    OKM = ("to_owned", "clone", "to_vec", "iter", "copied", "cloned", "collect", "into_iter", "as_slice", "borrow", "deref")
+    n = 0
+    for adt in ("ModuleIterator", "ComponentIterator"):
+        for fn in F.find_fns(self_adt=adt, name="new"):
+            if fn.get("body") is None:
+                continue
+            r.analysed.append(fn["path"])
+            skip_params = {pm["pat"].get("hid") for pm in fn["params"] if "FunctionID" in (pm.get("ty") or "")}
+            if not skip_params:
+                continue
+            for c in walk(fn["body"]):
+                if c.get("k") == "Call" and (c.get("callee") or "").endswith("SubIterator::new"):
+                    for a in c["args"]:
+                        if "FunctionID" not in (a.get("ty") or "") or "FunctionID, usize)" in (a.get("ty") or ""):
+                            continue  # not the skip configuration (the metadata carries (FunctionID, usize) pairs)
+                        n += 1
+                        # follow locals back to the parameter, collecting method names
+                        meths, roots, stack_, seen = [], set(), [a], set()
+                        while stack_:
+                            e_ = stack_.pop()
+                            for x in walk(e_):
+                                if x.get("k") == "MethodCall":
+                                    meths.append(x["method"])
+                                if x.get("k") == "Path" and x.get("res", {}).get("r") == "local":
+                                    h = x["res"]["hid"]
+                                    if h in skip_params:
+                                        roots.add(h)
+                                    elif h not in seen:
+                                        seen.add(h)
+                                        for st in walk(fn["body"]):
+                                            if st.get("k") == "Let" and st["pat"].get("hid") == h and "init" in st:
+                                                stack_.append(st["init"])
+                        bad = [m for m in meths if m not in OKM]
+                        ok = bool(roots) and not bad
+                        r.ob(ok, {"ctor": fn["path"], "skip_arg_methods": meths})
+                        if not ok:
+                            r.violate("%s | skip config %s" % (fn["path"], "+".join(bad) or "not from parameter"), F.loc(fn, c),
+                                      "%s::new does not pass the caller's skip configuration through unchanged (%s): entries the caller listed can be dropped, so functions it asked to skip are visited" % (adt, ("applies " + ", ".join(bad)) if bad else "argument does not derive from the parameter"))
+    r.count("skip_arguments", n)
+    if n < 2:
+        raise CheckError("expected the skip argument of both public iterator constructors, found %d" % n)
+    return r
